@@ -364,11 +364,9 @@ func bigValues(g *gen.G, all bool) []abs.V {
 		ccb[i] = abs.V{"media": g.U32(), "begin": 100 * i, "mbs": ms}
 	}
 	ccfb := abs.V{"k": "CCFB", "sender": g.U32(), "blocks": ccb, "ts": g.U32()}
-	st := make([]int, 30000)
-	for i := range st {
-		st[i] = 2
-	}
-	twcc := g.TWCCFrom(st, 2)
+	// (no TransportLayerCC here: its size is bounded by the 16-bit status count, and a feedback with tens of
+	// thousands of deltas costs the specification's delta pass minutes per event; TWCC length-field
+	// arithmetic is crossed by the length lies of the fault machine and of the fuzz driver instead)
 	rle := make(abs.L, 32762)
 	for i := range rle {
 		rle[i] = (i*7 + 1) % 65536
@@ -380,7 +378,7 @@ func bigValues(g *gen.G, all bool) []abs.V {
 	}
 	xrdlrr := abs.V{"k": "XR", "sender": g.U32(), "blocks": abs.L{abs.V{"bt": "dlrr", "reports": dl}, abs.V{"bt": "rrt", "ntp": g.U64()}}}
 	raw := abs.V{"k": "RAW", "bytes": append(abs.L{128 + 7, 199, 65536 / 4 / 256, 65536 / 4 % 256}, g.Bytes(65536)...)}
-	return append(vs, rr, app, sdes, ccfb, twcc, xrrle, xrdlrr, unk(65536), raw)
+	return append(vs, rr, app, sdes, ccfb, xrrle, xrdlrr, unk(65536), raw)
 }
 
 func init() {
